@@ -241,21 +241,133 @@ Print Assumptions C17_self_replacement_abs_differs.
 (** ** tie to the source text: the body of WebSocketLimits::check_outbound,
     re-translated into Gallina by bin/rs2v on every run (Gen/LimitsGen.v), returns
     [Ok(())] exactly when the model's [check_outbound] allows the message and
-    [Err(MessageTooLarge)] otherwise.  [None] (not translated, reported by rs2v)
-    degrades to [True]. *)
+    [Err(MessageTooLarge)] otherwise; its second rendering (Gen/OutboundGen.v) keeps the payload
+    of that error (the size asked about and the limit); and the body of frame_outbound
+    (src/websocket_server.rs), re-translated on every run (Gen/OutboundGen.v), puts on the wire
+    what the model's [frame_outbound] says -- the message unchanged, nothing for a refused notify,
+    the internal-error replacement with the same id for a refused response -- and calls the
+    error-hook oracle exactly once per refused message and never otherwise ([reports] is the list
+    of those calls; [fmt] is the oracle for the [format!] text, [cap_of] the one for the capacity
+    of a body vector).  The replacement is built by create_error_message, itself re-translated
+    (Gen/ErrMsgGen.v: the builder chain of src/message.rs) and equal to the model's [build] of the
+    default builder with the error code and the text as a UTF-8 body.  [None] (not translated,
+    reported by rs2v) degrades to [True]. *)
 From RepeV Require Import Base.GenLimitsPrelude Gen.LimitsGen Proofs.LimitsGenAgree.
+From RepeV Require Import Base.GenOutboundPrelude Gen.ErrMsgGen Gen.OutboundGen Proofs.ErrMsgGenAgree Proofs.OutboundGenAgree.
 
 Theorem C17_source_translation :
   match gen_check_outbound with
   | Some f => forall l size, f l size = if check_outbound (l_peer l) size then Ok tt else Err EOther
   | None => True
+  end /\
+  match gen_check_outbound_r with
+  | Some f => forall l size,
+      f l size = Ok (match l_peer l with
+                     | Some lim => if check_outbound (Some lim) size then ROk tt else RErr (E_MessageTooLarge size lim)
+                     | None => ROk tt
+                     end, l)
+  | None => True
+  end /\
+  match gen_frame_outbound with
+  | Some f => forall fmt cap_of reports m l,
+      (forall s li, fmt [s; li] = replacement_text s li) ->
+      h_version (m_hdr m) < 256 -> h_notify (m_hdr m) < 256 -> frame_len m < two64 ->
+      f fmt cap_of reports m l =
+      Ok (fst (frame_outbound (l_peer l) m), reports ++ reports_of (l_peer l) m)
+  | None => True
   end.
-Proof. exact check_outbound_agrees. Qed.
+Proof. exact (conj check_outbound_agrees c17_source_translation_outbound). Qed.
+
+Theorem C17_source_translation_messages :
+  match gen_msg_builder with Some f => f = Ok (mkBuilder 0 [] [] 0 0 false 0) | None => True end /\
+  match gen_builder_error_code with
+  | Some f => forall b ec, f b ec = Ok (mkBuilder (b_id b) (b_query b) (b_body b) (b_qfmt b) (b_bfmt b) (b_notify b) ec)
+  | None => True
+  end /\
+  match gen_builder_body_bytes with
+  | Some f => forall b x, f b x = Ok (mkBuilder (b_id b) (b_query b) x (b_qfmt b) (b_bfmt b) (b_notify b) (b_ec b))
+  | None => True
+  end /\
+  match gen_builder_body_format with
+  | Some f => forall b x, f b x = Ok (mkBuilder (b_id b) (b_query b) (b_body b) (b_qfmt b) x (b_notify b) (b_ec b))
+  | None => True
+  end /\
+  match gen_create_error_message with
+  | Some f => forall code text, HEADER_SIZE + lenN text < two64 -> f code text = Ok (error_message code text)
+  | None => True
+  end /\
+  match gen_create_error_response_like with
+  | Some f => forall r code text, HEADER_SIZE + lenN (m_query r) + lenN text < two64 ->
+      f r code text = Ok (error_response_like r code text)
+  | None => True
+  end.
+Proof. exact c17_source_translation_messages. Qed.
+
+Theorem C17_source_translation_reports : forall lim m,
+  length (reports_of lim m) = if snd (frame_outbound lim m) then 1%nat else 0%nat.
+Proof. exact c17_reports_of_model. Qed.
 
 Check C17_source_translation :
   match gen_check_outbound with
   | Some f => forall l size, f l size = if check_outbound (l_peer l) size then Ok tt else Err EOther
   | None => True
+  end /\
+  match gen_check_outbound_r with
+  | Some f => forall l size,
+      f l size = Ok (match l_peer l with
+                     | Some lim => if check_outbound (Some lim) size then ROk tt else RErr (E_MessageTooLarge size lim)
+                     | None => ROk tt
+                     end, l)
+  | None => True
+  end /\
+  match gen_frame_outbound with
+  | Some f => forall fmt cap_of reports m l,
+      (forall s li, fmt [s; li] = replacement_text s li) ->
+      h_version (m_hdr m) < 256 -> h_notify (m_hdr m) < 256 -> frame_len m < two64 ->
+      f fmt cap_of reports m l =
+      Ok (fst (frame_outbound (l_peer l) m), reports ++ reports_of (l_peer l) m)
+  | None => True
   end.
+Check C17_source_translation_messages :
+  match gen_msg_builder with Some f => f = Ok (mkBuilder 0 [] [] 0 0 false 0) | None => True end /\
+  match gen_builder_error_code with
+  | Some f => forall b ec, f b ec = Ok (mkBuilder (b_id b) (b_query b) (b_body b) (b_qfmt b) (b_bfmt b) (b_notify b) ec)
+  | None => True
+  end /\
+  match gen_builder_body_bytes with
+  | Some f => forall b x, f b x = Ok (mkBuilder (b_id b) (b_query b) x (b_qfmt b) (b_bfmt b) (b_notify b) (b_ec b))
+  | None => True
+  end /\
+  match gen_builder_body_format with
+  | Some f => forall b x, f b x = Ok (mkBuilder (b_id b) (b_query b) (b_body b) (b_qfmt b) x (b_notify b) (b_ec b))
+  | None => True
+  end /\
+  match gen_create_error_message with
+  | Some f => forall code text, HEADER_SIZE + lenN text < two64 -> f code text = Ok (error_message code text)
+  | None => True
+  end /\
+  match gen_create_error_response_like with
+  | Some f => forall r code text, HEADER_SIZE + lenN (m_query r) + lenN text < two64 ->
+      f r code text = Ok (error_response_like r code text)
+  | None => True
+  end.
+Check C17_source_translation_reports : forall lim m,
+  length (reports_of lim m) = if snd (frame_outbound lim m) then 1%nat else 0%nat.
+
+(** the definitions used above are the plain ones *)
+Check (eq_refl : frame_len = fun m => HEADER_SIZE + lenN (m_query m) + lenN (m_body m)).
+Check (eq_refl : reports_of = fun lim m =>
+  match lim with
+  | Some l => if l <? frame_len m then [R_OutboundTooLarge (frame_len m) l] else []
+  | None => []
+  end).
+Check (eq_refl : error_message = fun code text => build (mkBuilder 0 [] text 0 BF_UTF8 false code)).
+Check (eq_refl : error_response_like = fun r code text =>
+  let e := error_message code text in
+  let h := set_h_qlen (set_h_id (m_hdr e) (h_id (m_hdr r))) (lenN (m_query r)) in
+  mkMessage (set_h_length h (HEADER_SIZE + h_qlen h + h_blen h)) (m_query r) (m_body e)).
+Check (eq_refl : (ERRC_InternalError, BF_UTF8) = (9, 3)).
 
 Print Assumptions C17_source_translation.
+Print Assumptions C17_source_translation_messages.
+Print Assumptions C17_source_translation_reports.
